@@ -6,7 +6,7 @@ For a consistent tracker (`TrOK`) `build_branch(base, ops, gauge)` reaches no pa
 (`push` / `push_chunk` asserts, `u16::try_from`, the prefix of compressed separators) and produces the node with
 `prefix_len = gauge.prefix_len`, `prefix_compressed = gauge.prefix_compressed_items()` whose items are exactly what the ops
 stand for (`den`, with the page numbers of `Update`s applied); every stored separator length is at least the canonical
-one the gauge counted (`GoodFrom`), and equal to it when `kf.canon` (finding F20: as the code has it, the first
+one the gauge counted (`GoodFrom`), and equal to it when `kf.canon` (finding F22: as the code has it, the first
 separator of the base can be stored longer).
 -/
 namespace Nomt.BranchUpd
